@@ -1609,6 +1609,15 @@ struct MHD_Connection
   bool suspended;
 
   /**
+   * Thread-per-connection only: set when the connection gets suspended
+   * (always by the connection's own thread, in a callback), cleared by the
+   * same thread once it has processed the suspension.  Needed because the
+   * daemon's thread may clear @a suspended again (resume) before the
+   * connection's thread has looked at it.
+   */
+  bool suspend_seen;
+
+  /**
    * Are we currently in the #MHD_AccessHandlerCallback
    * for this connection (and thus eligible to receive
    * calls to #MHD_queue_response()?).
